@@ -29,6 +29,8 @@ var c17Cmds = [][]string{
 	{"lint", "--silent", "bad.yaml", "food.yaml"}, {"lint", "bad.yaml", "log.yaml"}, {"lint", "stray.yaml"}, {"lint", "-s", "stray.yaml"},
 	// output options together
 	{"reg", "-s", "x", "-g", "--csv"}, {"reg", "-f", "a", "--csv"}, {"reg", "--csv"}, {"reg", "--use-old-reg-reporter", "--totals-only", "--shorten"}, {"bal", "-c", "--collapse-last"},
+	// foods selected by pattern whose rows are longer than one output buffer (the long-name inputs below)
+	{"reg", "-f", "u"}, {"reg", "-f", "[0uv]"}, {"reg", "-f", "^r", "--csv"},
 }
 
 var c17UnshareOnce struct {
